@@ -70,3 +70,84 @@ def run_for(prop, scratch, outdir):
             results.append(Result(ob, "S", "verified", "", 0, meta))
     info = {"unit": "engine_s", "engine": "rustc", "cmd": "cargo check --offline (crate with one `bound::<T: Send + Sync>()` per type, tera by path)", "wall_s": wall, "smt_s": 0.0, "trusted": [], "functions": [t for t, _ in TYPES], "assumptions": ["engine S decides only the type-level part of thread safety; no schedule is explored (Kani has no thread support)"]}
     return results, [info]
+
+
+# ---- second kind: frame obligations ("Err exits only while *self is shared-borrowed") -----------
+FRAMES = os.path.join(VERIF, "contracts", "engine_s_frames.toml")
+INTERIOR = re.compile(r"\b(Cell|RefCell|UnsafeCell|Mutex|RwLock|OnceCell|OnceLock|Atomic\w+)\b")
+
+
+def run_frames(prop, scratch, outdir):
+    import json
+    import tomllib
+
+    import kanirun
+    from driver import Result
+    from vx import Src
+
+    with open(FRAMES, "rb") as f:
+        frames = [fr for fr in tomllib.load(f).get("frame", []) if prop == "ALL" or prop in fr["props"]]
+    if not frames:
+        return [], []
+    root = os.path.join(scratch, "engine_s_frames")
+    kanirun.copy_repo(root)
+    results, edits_by_file, pending = [], {}, []
+    for fr in frames:
+        meta = {"unit": "engine_s", "props": fr["props"], "fn": fr["fn"], "what": fr["what"]}
+        try:
+            src = Src(os.path.join(REPO, fr["file"]), fr["file"])
+            its = [it for it in src.items if it["kind"] == "fn" and it["path"] == fr["fn"]]
+            if len(its) != 1:
+                results.append(Result(fr["ob"], "S", "undecided", f"lost anchor: fn {fr['fn']} found {len(its)} times in {fr['file']}", 0, meta))
+                continue
+            it = its[0]
+            exits = [n for n in it["nodes"] if n["kind"] in ("try", "return")]
+            if len(exits) < fr.get("min_exits", 1):
+                results.append(Result(fr["ob"], "S", "undecided", f"vacuous: {len(exits)} exit sites in {fr['fn']}", 0, meta))
+                continue
+            last = max(i for i, st in enumerate(it["stmts"]) if any(st[0] <= n["range"][0] and n["range"][1] <= st[1] for n in exits))
+            p0, p1 = it["block"][0] + 1, it["stmts"][last][1]
+            # a trailing `;` belongs to the statement
+            txt = src.text(p0, p1)
+            new = f" let vx_ro: &{fr['self_ty']} = &*self; " + re.sub(r"\bself\b", "vx_ro", txt)
+            edits_by_file.setdefault(fr["file"], []).append((p0, p1, new))
+            l0 = src.text(0, p0).count("\n") + 1
+            l1 = src.text(0, p1).count("\n") + 1
+            pending.append((fr, meta, l0, l1, len(exits), len(it["stmts"]) - last - 1, src.text(it["stmts"][last][0], min(it["stmts"][last][0] + 60, it["stmts"][last][1]))))
+        except Exception as e:  # noqa: BLE001
+            results.append(Result(fr["ob"], "S", "undecided", f"frame rewrite failed: {e}", 0, meta))
+    if not pending:
+        return results, []
+    for file, eds in edits_by_file.items():
+        path = os.path.join(root, file)
+        b = open(path, "rb").read()
+        for p0, p1, new in sorted(eds, reverse=True):
+            b = b[:p0] + new.encode() + b[p1:]
+        open(path, "wb").write(b)
+    env = dict(os.environ)
+    env["CARGO_NET_OFFLINE"] = "true"
+    env["CARGO_TARGET_DIR"] = os.path.join(VERIF, "build", "engine-s-frames-target")
+    t0 = time.time()
+    p = subprocess.run(["cargo", "check", "--offline", "-p", "tera", "--lib", "--message-format=short"], cwd=root, env=env, capture_output=True)
+    wall = time.time() - t0
+    err = p.stderr.decode(errors="replace")
+    with open(os.path.join(outdir, "engine_s_frames.log"), "w") as f:
+        f.write(err)
+    errs = [(m.group(1), int(m.group(2)), m.group(3)) for m in re.finditer(r"(?m)^([\w/\.\-]+\.rs):(\d+):\d+: error(?:\[E\d+\])?: (.*)$", err)]
+    assumptions = []
+    for fr, meta, l0, l1, nexits, nafter, commit_stmt in pending:
+        rel = fr["file"].split("/", 1)[1] if fr["file"].startswith("tera/") else fr["file"]
+        mine = [e for e in errs if e[0].endswith(rel) and l0 <= e[1] <= l1 + 1]
+        meta = dict(meta, exits=nexits, prefix_lines=[l0, l1], statements_after_prefix=nafter, last_exit_statement=commit_stmt)
+        if mine:
+            results.append(Result(fr["ob"], "S", "false", "rustc rejects the shared-borrow prefix (a write through `self` precedes an error exit): " + "; ".join(f"line {e[1]}: {e[2]}" for e in mine[:4]), 0, meta))
+        elif p.returncode != 0:
+            results.append(Result(fr["ob"], "S", "undecided", "cargo check failed outside the prefix: " + err[-500:], 0, meta))
+        else:
+            results.append(Result(fr["ob"], "S", "verified", "", 0, meta))
+        body = open(os.path.join(REPO, fr["file"])).read()
+        hits = sorted(set(INTERIOR.findall(body)))
+        assumptions.append(f"engine S frame {fr['fn']}: no interior mutability reachable from {fr['self_ty']} is written on the error paths (interior-mutability type names in {fr['file']}: {hits or 'none'}); panics are not error returns")
+    shutil.rmtree(root, ignore_errors=True)
+    info = {"unit": "engine_s_frames", "engine": "rustc", "cmd": "cargo check --offline -p tera --lib on an overlay copy in which the exit-bearing prefix of each function uses `let vx_ro: &T = &*self` instead of `self`", "wall_s": wall, "smt_s": 0.0, "trusted": [], "functions": [fr["fn"] for fr, *_ in pending], "assumptions": assumptions}
+    return results, [info]
